@@ -6,12 +6,15 @@
    Case layouts (first token = tag, zigzag-encoded by the harness: 1 -> 2, 2 -> 4, 3 -> 6):
    1 WAY   : nodes (list of ids) | tags (list of key value) | observed (0 false, 1 true, 2 panic)
    2 REL   : tags | observed (0 false, 1 true, 2 panic)
+   4 FIND  : tags | key | observed string (Tags.Find)
    3 TABLE : the three condition names at run time (all, whitelist, blacklist)
              | run-time table after init: list of (key, condition, list of values)
              | the harness's own copy of the published table: list of (key, 0 all/1 white/2 black, values)
    codes: 1 = model <> implementation
           2 = property oracle fails on the observation
-              (WAY/REL: the observed answer is not the declarative spec's answer for that tag set;
+              (FIND: with distinct keys the observed value is the value of the tag with that key,
+               "" if there is none.
+               WAY/REL: the observed answer is not the declarative spec's answer for that tag set;
                only evaluated when the keys are distinct, a panic always fails it.
                TABLE: the run-time table is not sorted or is not the published table as sets)
           3 = TABLE: the harness's copy of the published table differs from Spec.SpecTable
@@ -73,6 +76,13 @@ Definition check_rel : P (list Z) :=
     (if nodupb (keys ts) then obs =? b2z (spec_relationb (lookup ts)) else true) in
   ret (code_if j1 1 ++ code_if j2 2)%list.
 
+(* ---- FIND ---- *)
+Definition check_find : P (list Z) :=
+  ts <- ptags ;; k <- ppacked ;; obs <- ppacked ;;
+  let j1 := String.eqb (find k ts) obs in
+  let j2 := if nodupb (keys ts) then String.eqb (lookup ts k) obs else true in
+  ret (code_if j1 1 ++ code_if j2 2)%list.
+
 (* ---- TABLE ---- *)
 Definition prt_rule : P rule :=
   k <- ppacked ;; c <- ppacked ;; vs <- plist ppacked ;; ret (mkRule k (decode_cond c) vs).
@@ -97,6 +107,7 @@ Definition check_case (t : toks) : list Z :=
       let p := if tag =? 2 then check_way
                else if tag =? 4 then check_rel
                else if tag =? 6 then check_table
+               else if tag =? 8 then check_find
                else pfail in
       match parse_all p rest with Some codes => codes | None => [0] end
   | [] => [0]
